@@ -131,6 +131,10 @@ func (c *NamedCollectionNames) FindRegex(key *regexp.Regexp) []types.MatchData {
 }
 
 func (c *NamedCollectionNames) FindString(key string) []types.MatchData {
+	// keys are stored lower-cased unless the collection is case sensitive (see Map.FindString)
+	if !c.collection.isCaseSensitive {
+		key = strings.ToLower(key)
+	}
 	data, ok := c.collection.data[key]
 	if !ok || len(data) == 0 {
 		return nil
